@@ -107,14 +107,6 @@ def stepCorr (level : Nat) (i : Nat) (s : StepObs) : Verdict :=
 def historyCorr (level : Nat) (obs : List StepObs) : Verdict :=
   firstBad ((obs.zipIdx).map fun (s, i) => fun _ => stepCorr level i s)
 
-/-- renderer correspondence: the model renders the implementation's own final tree -/
-def renderCorr (tree : Option Elem) (rs : List (Options × Name)) : Verdict :=
-  match tree with
-  | none => .ok
-  | some t => firstBad ((rs.zipIdx).map fun ((o, txt), i) => fun _ =>
-      let m := toSerdeStruct o t
-      if m == txt then .ok else .corr s!"render entry={i} model={repr (showName m)} impl={repr (showName txt)}")
-
 def finalImplTree (obs : List StepObs) : Option Elem := (obs.getLast?).bind (·.implTree)
 
 def DocCase.dom (d : DocCase) : Option Node := d.doc.map (·.root)
@@ -160,6 +152,18 @@ where
   goKids : List (Nec × Elem) → Bool
     | [] => true
     | (_, e) :: rest => Elem.inAlphabet e && goKids rest
+
+/-- renderer correspondence: the model renders the implementation's own final tree -/
+def renderCorr (tree : Option Elem) (rs : List (Options × Name)) : Verdict :=
+  match tree with
+  | none => .ok
+  | some t => firstBad ((rs.zipIdx).map fun ((o, txt), i) => fun _ =>
+      let ast := renderAST o t
+      let m := printAST ast
+      if m != txt then .corr s!"render entry={i} model={repr (showName m)} impl={repr (showName txt)}"
+      -- the reader used on the implementation's text gives back the model's AST when applied to the model's text
+      else if Elem.inAlphabet t && readProgram m != some (ast.map StructDef.plain) then .corr s!"reader: readProgram (printAST ast) is not ast, entry={i}"
+      else .ok)
 
 def readAll (rs : List (Options × Name)) : Option (List (Options × List PStruct)) :=
   rs.mapM fun (o, t) => (readProgram t).map fun p => (o, p)
